@@ -56,6 +56,9 @@ pub enum Ty {
     Bytes(BytesKind),
     /// Box / Rc / Arc: transparent
     Boxed(Box<Ty>),
+    /// a client codec over the reference table: a count (unsigned varint), then per string either
+    /// 0 and the string (a new object, which takes the next reference id) or the id of an earlier one
+    SharedStrs,
     /// a byte block in a compressed frame (`write_compressed` / `read_compressed` of a client codec)
     Compressed,
     Uuid,
